@@ -25,6 +25,13 @@ def toggled(h, slots):
 
 def init_case(h, call, fault):
     run, is_define, cls_on = ib.run_in(h, fault)
+    if run["cfg"]["collectByMro"]:
+        # what `_collect_base_attrs` sees of each class of the MRO since /repo 5cfb00c: the class's OWN
+        # __attrs_attrs__ (a plain class no longer re-exports its attrs base's fields); idempotent if
+        # initbuild.run_in already reports it that way
+        C = ib.build(h)[-1]
+        for bi, K in zip(run["bases"], C.__mro__[1:-1]):
+            bi["attrs"] = [[a.name, bool(a.inherited)] for a in K.__dict__.get("__attrs_attrs__", ())]
     return {"run": run, "call": call, "isDefine": is_define, "clsOnSet": cls_on}
 
 
